@@ -28,6 +28,8 @@ def run(prog, chk):
         "a glyph a filter takes from another layer and adds under a new name has its code points removed before the insertion (R03.9)",
         "renaming to production names keeps every glyph name unique (kept names are reserved up front, every handed-out name is recorded): a name carried by two glyphs makes the returned font's cmap and name-keyed tables point at the wrong glyph (R03.10, shared with C11)",
     ]
+    chk.decided += ["a glyph's code points are read through `unicodes` (all of them): `.unicode` (the first one only) is read by the production-name builder alone - a decision taken on the first "
+                    "code point misses glyphs that carry the code point as a secondary one (R03.11)"]
     chk.not_decided += ["the ordering as a function of arbitrary inputs", "cmap binary encoding (fontTools)"]
     chk.guard(r031, prog, chk)
     chk.guard(r031e, prog, chk)
@@ -40,6 +42,7 @@ def run(prog, chk):
     chk.guard(r039, prog, chk)
     from .c11 import r113
     chk.guard(r113, prog, chk, "R03.10")
+    chk.guard(r0311, prog, chk)
 
 
 # ----------------------------------------------------------------------------- R03.1
@@ -579,6 +582,33 @@ def r036(prog, chk, cm, only_when_no_hi):
     chk.minimum("R03.6", 5)
 
 
+
+# ----------------------------------------------------------------------------- R03.11
+PRIMARY_CODEPOINT_READERS = {
+    "PostProcessor._build_production_name": "a production name (uniXXXX) is derived from the glyph's primary code point, by design of the naming scheme",
+}
+
+
+def r0311(prog, chk):
+    n = 0
+    for fi in prog.ix.functions.values():
+        if isinstance(fi.node, ast.Lambda):
+            continue
+        owner = fi
+        while owner.parent is not None:
+            owner = owner.parent
+        for x in A.body_nodes(fi.node):
+            if isinstance(x, ast.Attribute) and x.attr == "unicode" and isinstance(x.ctx, ast.Load) and T(x.value) != "self":
+                n += 1
+                ok = owner.short in PRIMARY_CODEPOINT_READERS
+                if ok:
+                    chk.exempt("R03.11", f"{fi.short}|{A.keytext(fi.node, prog.ix.enclosing_stmt(x))[:60]}", PRIMARY_CODEPOINT_READERS[owner.short])
+                chk.ob("R03.11", f"{fi.short}|{A.keytext(fi.node, prog.ix.enclosing_stmt(x))[:60]}", ok, where(fi, x), detail=PRIMARY_CODEPOINT_READERS.get(owner.short, T(x)),
+                       message=f"{fi.short} looks at `{T(x)}`, the first code point of a glyph only: a glyph that carries the code point in question as a secondary one is not "
+                               f"recognised (the same code point is then claimed by a second glyph, or the glyph is treated as unencoded)")
+    need(n >= 2, f"R03.11: reads of .unicode found: {n}")
+    chk.minimum("R03.11", 2)
+
 # ------------------------------------------------------------------- self-validation corpus
 from ..selftest import M  # noqa: E402
 
@@ -706,6 +736,8 @@ def r039(prog, chk):
 
 
 MUTANTS = [
+    M("existing dotted circle searched by primary code point only (seeded C03j)", "ufo2ft/filters/dottedCircle.py", "DottedCircleFilter.check_dotted_circle",
+      "9676 in g.unicodes", "g.unicode == 9676", rule="R03.11"),
     M("kept names reserved only when the loop reaches them (seeded C03h)", "ufo2ft/postProcessor.py", "PostProcessor._build_production_names",
       "seen = {name: 1 for name in glyphOrder if name not in self.glyphSet}", "seen = {}", rule="R03.10"),
     M("glyph copies drop U+0000 (seeded C03g)", "ufo2ft/util.py", "_copyGlyph",
